@@ -23,6 +23,10 @@ func main() {
 	for i, v := range b[:0] {
 		fmt.Println(i, v)
 	}
+	var z []int
+	z1, z2, z3 := z[0:0], z[:], z[:0]
+	z4 := append(z[:0], 1)
+	fmt.Println(z1 == nil, z2 == nil, z3 == nil, len(z1), z4, z == nil)
 	var f func(int) int = nil
 	fmt.Println(f == nil)
 }
